@@ -66,17 +66,20 @@ def carriesAny (h : Header) : Bool := allDirectives.any fun d => carries d h
     treated as "do not cache" (`doNotCache` = what the implementation / the model answered) -/
 def holds (h : Header) (doNotCache : Bool) : Bool := !carriesAny h || doNotCache
 
-/-! ### known-finding classes -/
-
-/-- C10-a: an element that the token-level reading recognises as one of the five directives
-    has an HTAB in its surrounding optional white space (rrrouter trims spaces only) -/
-def inClass_C10_a (h : Header) : Bool :=
+/-- (no finding class any more.)  An element that the token-level reading recognises as one of
+    the five directives has an HTAB in its surrounding optional white space.  This was the class
+    of finding C10-a (rrrouter trimmed spaces only); since the fix the parser trims SP / HTAB and
+    no theorem excludes these inputs.  Kept only as a distribution label of the driver, so that
+    the evidence shows how many generated headers exercise the repaired spelling. -/
+def htabAroundDirective (h : Header) : Bool :=
   (elements h).any fun e => allDirectives.any (fun d => isDirective d e) && stripOWS e != stripSP e
+
+/-! ### known-finding classes -/
 
 /-- what rrrouter's parser reads out of ONE list element for the numeric directive behind `d`:
     `true` when it reads a value other than zero (any spelling `strconv.Atoi` accepts) -/
 def readsNonZero (d : Directive) (e : Bytes) : Bool :=
-  let r := Model.applyPart {} (toLower (trim b!" " e))
+  let r := Model.applyPart {} (toLower (trim b!" \t" e))
   match d with
   | .maxAge0 => (match r.maxAge with | some n => n != 0 | none => false)
   | .sMaxAge0 => (match r.sMaxAge with | some n => n != 0 | none => false)
